@@ -4,6 +4,7 @@ package verifharness
 // by pkg/rf.OpenServer, plus the CHF-side tariff decoding (processor.getUnitCost) against it.
 
 import (
+	"go.mongodb.org/mongo-driver/bson"
 	"bufio"
 	"encoding/json"
 	"fmt"
@@ -31,6 +32,11 @@ type RatingCase struct {
 	// subscriber (a rating server serves many subscribers at once); every member is then judged like a single case
 	Batch  []RatingCase `json:"batch"`
 	Rounds int          `json:"rounds"`
+	// Flip: the stored unit cost alternates between these two values on every read of the subscriber's charging data
+	// (a tariff edited while requests are served); small plain numbers: Used / Money are the request's amounts
+	Flip  []string `json:"flip"`
+	Used  uint64   `json:"used"`
+	Money uint64   `json:"money"`
 }
 
 var subNum = map[string]charging_datatype.RequestSubType{
@@ -143,7 +149,56 @@ func RunRating(env *Env, prefix, in, out string) error {
 	cliU := NewDiamClient(fmt.Sprintf("127.0.0.1:%d", env.RfPort), env.Pem, env.Key, "SUA")
 	defer cliU.Close()
 	for i, c := range cases {
-		if len(c.Batch) > 0 {
+		if len(c.Flip) != 2 {
+			continue
+		}
+		env.ResetState(0)
+		env.PutAccount(supi, 1, "1000", c.Flip[0])
+		reads := 0
+		env.Mongo.AfterFind = func(ns string, doc bson.M) {
+			if doc["ueId"] == supi {
+				reads++
+				doc["unitCost"] = c.Flip[reads%2]
+			}
+		}
+		var ans *diam.Message
+		ans, _ = cli.Exchange(charging_code.ServiceUsageMessage, charging_code.Re_interface,
+			func(realm, host datatype.DiameterIdentity) any {
+				return &charging_datatype.ServiceUsageRequest{
+					SessionId: "vf", OriginHost: "vfclient", OriginRealm: "go-diameter", DestinationRealm: realm, DestinationHost: host,
+					ActualTime: datatype.Time(time.Now()), UserName: "CHF",
+					SubscriptionId: &charging_datatype.SubscriptionId{
+						SubscriptionIdType: charging_datatype.END_USER_IMSI, SubscriptionIdData: datatype.UTF8String(supi[5:]),
+					},
+					ServiceRating: &charging_datatype.ServiceRating{
+						ServiceIdentifier: 1, RequestSubType: subNum[c.Sub],
+						ConsumedUnits: datatype.Unsigned32(c.Used), MonetaryQuota: datatype.Unsigned32(c.Money),
+					},
+				}
+			}, 1000*time.Millisecond)
+		env.Mongo.AfterFind = nil
+		res := map[string]any{"got": ans != nil, "price": -1, "allowed": -1, "digits": -1, "exp": 0, "reads": reads}
+		if ans != nil {
+			if v, ok := avpU64(avpPath(ans, "Service-Rating", "Price")); ok {
+				res["price"] = v
+			}
+			if v, ok := avpU64(avpPath(ans, "Service-Rating", "AllowedUnits")); ok {
+				res["allowed"] = v
+			}
+			if v, ok := avpI64(avpPath(ans, "Service-Rating", "MonetaryTariff", "Rate-Element", "Unit-Cost", "Value-Digits")); ok {
+				res["digits"] = v
+			}
+			if v, ok := avpI64(avpPath(ans, "Service-Rating", "MonetaryTariff", "Rate-Element", "Unit-Cost", "Exponent")); ok {
+				res["exp"] = v
+			}
+		}
+		b, _ := json.Marshal(map[string]any{"trace": c.ID, "seq": i, "action": "flip",
+			"args": map[string]any{"flip": c.Flip, "sub": c.Sub, "used": c.Used, "money": c.Money}, "result": res})
+		_, _ = w.Write(b)
+		_ = w.WriteByte('\n')
+	}
+	for i, c := range cases {
+		if len(c.Batch) > 0 || len(c.Flip) == 2 {
 			continue
 		}
 		env.ResetState(0)
